@@ -13,7 +13,7 @@ PROP = 'C10'
 LEVEL = 'exploration'
 SHARDS = {'quick': 8, 'thorough': 16}
 TIMEOUT = {'quick': 300, 'thorough': 3400}
-N = {'quick': 3, 'thorough': 5}
+N = {'quick': 3, 'thorough': 6}
 RULE = ('cases: every non-wrapping grid shape with extents 0..N per axis (plus LineWorld/GridWorld classes) x every centre cell x every radius '
         '0..(largest extent + 1) x {moore, neumann} x incl_center {False, True} x ret_type {int, tuple} x centre representation {cell id, '
         'coordinate tuple, PositionComponent with integer coordinates, PositionComponent with in-cell offsets +0.25/+0.9} x {specific, '
@@ -28,7 +28,7 @@ FLOORS = {'quick': {'queries': 56000, 'moore': 28000, 'neumann': 28000, 'center_
                     'reach:Environments.DiscreteWorld.get_neumann_neighbours': 28000, 'reach:Environments.DiscreteWorld.get_neighbours': 28000},
           'thorough': {'queries': 1000000, 'shapes': 200}}
 EXHAUSTIVE = {'quick': 'all shapes with extents 0..3, all centres, radii 0..max extent+1, all 64 query variants',
-              'thorough': 'all shapes with extents 0..5, all centres, radii 0..max extent+1, all 64 query variants'}
+              'thorough': 'all shapes with extents 0..6, all centres, radii 0..max extent+1, all 64 query variants'}
 
 
 def shapes(n):
